@@ -40,6 +40,12 @@ claimed = {
  "C13": ("proof", "DESIGN.md section 4 C13",
    "Unbounded deductive proof relative to a model of package time in which the zone offset is an uninterpreted function (all zones at once): every date producer (ToDate, ParseDate, the wire decoders of Date, DateTime, SystemDate, SystemTime) has a `civil` postcondition - if the civil day / date-time exists in the process-local zone the result has exactly the requested fields - and the encoders write exactly the civil fields. On the current tree the date clauses are provable only under the additional hypothesis that local midnight exists on that day: the missing-midnight case is a genuine defect recorded as four known findings (known_findings.txt), each replayed on the real code.",
    BASE_NOTE + "; the time model (spec/time.spec: time.Date algorithm abs = C - off(C - off(C)), documented guarantee when the civil time exists, calendar bijection) is assumed; the status recombination closures are covered through the decoder contracts only"),
+ "C15": ("proof", "DESIGN.md section 4 C15",
+   "Unbounded deductive proof over abstract strings: the four parsers are verified against postconditions stated with the grammar predicates isQuadPort / isQuad / hasQuad (accept with exactly that address and port under the role's port rule, default ports 0 / 60000 / 60000 / mandatory, reject when the rule is violated, reject strings without a dotted quad); Parse(String(a)) == a for accepted addresses is a lemma function per role verified from the parser contracts.",
+   BASE_NOTE + "; assumed: what the two unanchored regular expressions and netip.ParseAddrPort/ParseAddr do on strings of the exact dotted-quad[:port] form and on strings without a dotted quad (axioms in spec/addr.spec); strings with text around a dotted quad are not decided"),
+ "C17": ("proof", "DESIGN.md section 4 C17",
+   "Unbounded deductive proof on a heap model with allocation freshness: frame obligations of every API operation (no write to memory that existed at entry), Device.Clone / Card.Clone (equal value, fresh slices/maps), NewUHPPOTE (every device stored as a clone in a fresh map), and `noalias` clauses: decoded IPv4 / MAC slices share no memory with the message buffer (decode lemmas of the message types and of the C18 layout family); result maps of GetCard*/GetTimeProfile are fresh.",
+   BASE_NOTE + "; DeviceList is not decided (range over a map)"),
  "C18": ("other", "DESIGN.md section 4 C18",
    "Deductive proof per layout over a FINITE FAMILY of layouts (bounded in the layout quantifier, unbounded in the field values): for 9 message layouts that are not shipped messages and together cover every supported field kind, fields ending on byte 63, pointer variants, one level of embedding and decimal/hex/upper-case value tags, Unmarshal(Marshal(v)) is verified with the reflective codec executed on its real body - exact bytes at each offset and zero elsewhere, decode(encode(v)) == v, tags emitted and enforced, no shared memory with the buffer, no panic. The generic statement for all layouts of the tag grammar is not discharged (reflection on a statically unknown type is outside the engine's model); that is why the level is 'other', not 'proof'.",
    BASE_NOTE + "; bounded: the family of layouts in encoding/UTO311-L0x/lemmas_verif.go"),
